@@ -209,6 +209,11 @@ class New(Op):
             kw[f] = iter(objs) if style == "iter" else (tuple(objs) if style == "tuple" else objs)
         for f, q in (op.get("kids_from") or {}).items():
             kw[f] = getattr(w.objs[q], f)  # the other owner's collection itself
+            lz = op.get("kids_from_lazy")
+            if lz == "iter":
+                kw[f] = iter(kw[f])
+            elif lz == "gen":
+                kw[f] = (x for x in kw[f])
         cls = w.kind_cls[kind]
         out = capture(lambda: cls(**kw))
         if out.kind == "ok":
@@ -253,6 +258,8 @@ class New(Op):
         w.register(label, obj, MNode(label, kind, obj.uuid.int, None, a))
         if op.get("kids_from"):
             w.counters["probe:bulk_move_from_other_collection"] += 1
+            if op.get("kids_from_lazy"):
+                w.counters["probe:bulk_move_through_lazy_view"] += 1
         for f, ls in allk.items():
             for l in ls:
                 w.m.set_parent(l, label)
